@@ -124,7 +124,7 @@ class SlotLimits(object):
     head of a request goes out and part of its body stays behind); every other call moves all
     it can.  at[k], lim[k] and tail[k] are symbolic integers: the solver forks on `at[k] == callno` for the
     calls that really happen and on `limit < available`."""
-    def __init__(self, sym, slots, maxcall, lmax, stride=1):
+    def __init__(self, sym, slots, maxcall, lmax, stride=1, tail=True):
         self.calls = 0
         self.stride = stride
         self.resume = bool(getattr(sym, "symbolic", False))
@@ -135,7 +135,7 @@ class SlotLimits(object):
         for k in range(slots):
             a = sym.int("at%d" % k, 0, maxcall)
             l = sym.int("lim%d" % k, 0, lmax)
-            self.tail.append(sym.int("tail%d" % k, 0, 1))
+            self.tail.append(sym.int("tail%d" % k, 0, 1) if tail else 0)
             if k:
                 prev = self.at[k - 1]
                 sym.assume(prev == 0 or prev < a)   # ascending, unused slots (0) first
